@@ -25,6 +25,7 @@ import (
 	"sort"
 	"strings"
 	"sync"
+	"syscall"
 	"time"
 
 	"github.com/logrange/logrange/api/rpc"
@@ -239,6 +240,12 @@ const dummyCoq = "(KVarint 0%N [x00] 1%nat)"
 
 func childMain(jobsFile, outFile string) {
 	Quiet()
+	// as many file descriptors as the hard limit allows (chunk writers keep theirs until the idle time-out)
+	var rl syscall.Rlimit
+	if syscall.Getrlimit(syscall.RLIMIT_NOFILE, &rl) == nil && rl.Cur < rl.Max {
+		rl.Cur = rl.Max
+		syscall.Setrlimit(syscall.RLIMIT_NOFILE, &rl)
+	}
 	data, err := ioutil.ReadFile(jobsFile)
 	if err != nil {
 		fmt.Fprintln(os.Stderr, err)
@@ -390,8 +397,47 @@ func dirSize(d string) (int64, int) {
 	return n, files
 }
 
-// runIsolated runs all jobs in child processes and returns one result per job
+// runIsolated runs all jobs in child processes and returns one result per job. A child hosts at most 25 cases:
+// a stopped server keeps the file descriptors of its chunk writers until their idle time-out (the journal
+// controller has no Shutdown), so a long-lived process would run out of descriptors.
 func runIsolated(c *Ctx, jobs map[int]Replay) (map[int]childRes, error) {
+	var idx []int
+	for i := range jobs {
+		idx = append(idx, i)
+	}
+	sort.Ints(idx)
+	all := map[int]childRes{}
+	for lo := 0; lo < len(idx); lo += 25 {
+		hi := lo + 25
+		if hi > len(idx) {
+			hi = len(idx)
+		}
+		part := map[int]Replay{}
+		for _, i := range idx[lo:hi] {
+			part[i] = jobs[i]
+		}
+		res, err := runIsolatedPart(c, part)
+		if err != nil {
+			return nil, err
+		}
+		stop := false
+		for i, r := range res {
+			all[i] = r
+			if o := r.Oracle; o != nil && (o.Class == "server-crashed" || o.Class == "request-did-not-return") {
+				stop = true
+			}
+		}
+		if stop {
+			for _, i := range idx[hi:] {
+				all[i] = childRes{Idx: i, Stream: "skipped"}
+			}
+			break
+		}
+	}
+	return all, nil
+}
+
+func runIsolatedPart(c *Ctx, jobs map[int]Replay) (map[int]childRes, error) {
 	all := map[int]childRes{}
 	todo := map[int]Replay{}
 	for i, rp := range jobs {
